@@ -6,7 +6,7 @@
 From Coq Require Import ZArith QArith Qcanon List Bool Arith.
 From QV.Core Require Import OF QcOF Sums Mat.
 From QV.Model Require Import C09_LinEst.
-From QV.Proofs Require Import C09_LinEst C09_Witness.
+From QV.Proofs Require Import C09_LinEst C09_Rank C09_Witness.
 Import ListNotations.
 
 (* 1. the left-inverse certificate alone gives the two-sided inverse and its symmetry *)
@@ -116,19 +116,71 @@ Theorem C09_coded_exact_recovery : forall (F : OF) m n (A : @mat F) (b : list F)
 Proof. exact coded_exact_recovery. Qed.
 Print Assumptions C09_coded_exact_recovery.
 
-(* 12b. ... and it returns exactly when the guard passes, an inverse is certified and every dataset stacks:
-        at least one block, all blocks (= outcome counts of the schedules) equally long, m entries in total *)
+(* 12b. ... and it returns exactly when the guard passes, an inverse is certified and every dataset stacks to m entries:
+        at least one block, m entries in total — the block lengths (= outcome counts of the schedules) are NOT restricted *)
 Theorem C09_coded_returns_iff : forall (F : OF) m n (A : @mat F) (b : list F) (sq : list (dataset F)),
   (exists xs, calc_estimate_sequence m n A b sq = E_ok xs) <->
   coded_guard m n A = true /\ (exists M, solve m n A = S_inv M) /\ Forall (fun ds => exists f, flat_ok F m ds f) sq.
 Proof. exact coded_returns_iff. Qed.
 Print Assumptions C09_coded_returns_iff.
 
-Theorem C09_vstack_flatten_spec : forall (F : OF) (blocks : list (list F)) f,
-  vstack_flatten blocks = Some f <->
-  blocks <> [] /\ (forall b, In b blocks -> length b = length (hd [] blocks)) /\ f = concat blocks.
-Proof. exact vstack_flatten_spec. Qed.
-Print Assumptions C09_vstack_flatten_spec.
+Theorem C09_hstack_spec : forall (F : OF) (blocks : list (list F)) f,
+  hstack blocks = Some f <-> blocks <> [] /\ f = concat blocks.
+Proof. exact hstack_spec. Qed.
+Print Assumptions C09_hstack_spec.
+
+Theorem C09_flat_ok_iff : forall (F : OF) m (ds : dataset F) f,
+  flat_ok F m ds f <-> ds <> [] /\ f = concat (map snd ds) /\ length (concat (map snd ds)) = m.
+Proof. exact flat_ok_iff. Qed.
+Print Assumptions C09_flat_ok_iff.
+
+(* 12c. tester sets with unequal outcome counts (repair linear-estimator-unequal-outcome-counts): whatever the block
+        lengths, the estimator returns the certified estimate of the concatenated data of every dataset *)
+Theorem C09_coded_returns_any_block_lengths : forall (F : OF) m n (A M : @mat F) (b : list F) (sq : list (dataset F)),
+  coded_guard m n A = true -> solve m n A = S_inv M ->
+  Forall (fun ds => ds <> [] /\ length (concat (map snd ds)) = m) sq ->
+  calc_estimate_sequence m n A b sq = E_ok (map (fun ds => one_estimate m n M A b (concat (map snd ds))) sq).
+Proof. exact coded_returns_any_block_lengths. Qed.
+Print Assumptions C09_coded_returns_any_block_lengths.
+
+(* 12d. the repaired guard (repair fullrank-guard-column-rank): a tester set with fewer rows than variables never
+        passes, the estimator raises for it — whatever the data *)
+Theorem C09_fullrank_guard_rejects_wide : forall (F : OF) m n (A : @mat F), (m < n)%nat -> coded_guard m n A = false.
+Proof. exact guard_rejects_wide. Qed.
+Print Assumptions C09_fullrank_guard_rejects_wide.
+
+Theorem C09_wide_tester_set_raises : forall (F : OF) m n (A : @mat F) (b : list F) (sq : list (dataset F)),
+  (m < n)%nat -> calc_estimate_sequence m n A b sq = E_guard.
+Proof. exact wide_raises_guard. Qed.
+Print Assumptions C09_wide_tester_set_raises.
+
+(* 12e. the repaired guard is SOUND (all sizes, every ordered field): a tester set that passes it has an injective
+        forward map, so two variable vectors with the same exact data are equal, A^T A has no kernel certificate, and the
+        estimator never runs np.linalg.inv on an exactly singular matrix.
+        [rank_of] (exact pivot count) stands for np.linalg.matrix_rank; the two are tied by the correspondence only.
+        NOT proved (hence the name _partial of the last one): "passes the guard -> a certified inverse EXISTS"
+          forall m n A, coded_guard m n A = true -> exists M, left_inverse_cert n M (gram m A)
+        (needs completeness of Gauss-Jordan on A^T A); the existence of M is established at run time, per instance,
+        by the exact certificate check inside [solve]. *)
+Theorem C09_fullrank_guard_sound : forall (F : OF) m n (A : @mat F),
+  coded_guard m n A = true -> forall w, veq m (mv n A w) vzero -> veq n w vzero.
+Proof. exact guard_sound. Qed.
+Print Assumptions C09_fullrank_guard_sound.
+
+Theorem C09_passing_guard_identifiable : forall (F : OF) m n (A : @mat F) (b v v' : @vec F),
+  coded_guard m n A = true -> veq m (predict n A b v) (predict n A b v') -> veq n v v'.
+Proof. exact guard_identifiable. Qed.
+Print Assumptions C09_passing_guard_identifiable.
+
+Theorem C09_fullrank_guard_invertible_partial : forall (F : OF) m n (A : @mat F) (w : @vec F),
+  coded_guard m n A = true -> ~ kernel_cert n (gram m A) w.
+Proof. exact guard_excludes_kernel. Qed.
+Print Assumptions C09_fullrank_guard_invertible_partial.
+
+Theorem C09_never_singular : forall (F : OF) m n (A : @mat F) (b : list F) (sq : list (dataset F)),
+  calc_estimate_sequence m n A b sq <> E_singular.
+Proof. exact never_singular. Qed.
+Print Assumptions C09_never_singular.
 
 (* 13. estimating a sequence of datasets = estimating each dataset alone (both directions; no state is threaded) *)
 Theorem C09_sequence_is_map : forall (F : OF) m n (A : @mat F) (b : list F) (sq : list (dataset F)) xs,
@@ -151,25 +203,33 @@ Theorem C09_sample_counts_irrelevant : forall (F : OF) m n (A : @mat F) (b : lis
 Proof. exact counts_irrelevant. Qed.
 Print Assumptions C09_sample_counts_irrelevant.
 
-(* 15. REFUTED on the faithful model (finding C09-1).  Wanted:
-         forall m n A, coded_guard m n A = true -> exists M, left_inverse_cert n M (gram m A)
-       i.e. "whatever passes is_fullrank_matA can be inverted".  False: the guard compares the rank with
-       min(matA.shape), so a wide A (fewer rows than variables) of full ROW rank passes while A^T A is singular. *)
-Theorem C09_fullrank_guard_refuted : exists (m n : nat) (A : @mat Qc_OF) (b : list Qc) (ds : dataset Qc_OF),
-  coded_guard m n A = true /\ (forall M, ~ left_inverse_cert n M (gram m A)) /\
-  calc_estimate m n A b ds = E_singular.
+(* 15. REFUTED for the code AS IT WAS BEFORE fix fullrank-guard-column-rank (finding C09-1; definitions
+       coded_guard_before_fix / calc_estimate_before_fix in Model/C09_LinEst.v; the harness does NOT compare with these).
+       Wanted:  forall m n A, guard m n A = true -> exists M, left_inverse_cert n M (gram m A)
+       i.e. "whatever passes is_fullrank_matA can be inverted".  False for rank == min(matA.shape): a wide A (fewer rows
+       than variables) of full ROW rank passes while A^T A is singular.  For the repaired guard see 12d, 12e. *)
+Theorem C09_fullrank_guard_before_fix_refuted : exists (m n : nat) (A : @mat Qc_OF) (b : list Qc) (ds : dataset Qc_OF),
+  coded_guard_before_fix m n A = true /\ (forall M, ~ left_inverse_cert n M (gram m A)) /\
+  calc_estimate_before_fix m n A b ds = E_singular.
 Proof. exact guard_refuted. Qed.
-Print Assumptions C09_fullrank_guard_refuted.
+Print Assumptions C09_fullrank_guard_before_fix_refuted.
 
-(* 16. REFUTED on the faithful model (finding C09-2).  Wanted: with a certified inverse and the exact data of v,
-       the coded estimator returns v.  False when the schedules have unequal outcome counts: np.vstack raises. *)
-Theorem C09_mixed_outcome_counts_refuted : exists (m n : nat) (A M : @mat Qc_OF) (b : list Qc) (v : @vec Qc_OF) (ds : dataset Qc_OF),
-  left_inverse_cert n M (gram m A) /\ coded_guard m n A = true /\
+(* 16. REFUTED for the code AS IT WAS BEFORE fix linear-estimator-unequal-outcome-counts (finding C09-2).  Wanted: with a
+       certified inverse and the exact data of v, the estimator returns v.  False for np.vstack(...).flatten() when the
+       schedules have unequal outcome counts: np.vstack raises.  For the repaired code see 12c and the example below. *)
+Theorem C09_mixed_outcome_counts_before_fix_refuted : exists (m n : nat) (A M : @mat Qc_OF) (b : list Qc) (v : @vec Qc_OF) (ds : dataset Qc_OF),
+  left_inverse_cert n M (gram m A) /\ coded_guard_before_fix m n A = true /\
   length (concat (map snd ds)) = m /\
   veq m (vofl (F:=Qc_OF) (concat (map snd ds))) (predict n A (vofl (F:=Qc_OF) b) v) /\
-  calc_estimate m n A b ds = E_stack.
+  calc_estimate_before_fix m n A b ds = E_stack.
 Proof. exact mixed_counts_refuted. Qed.
-Print Assumptions C09_mixed_outcome_counts_refuted.
+Print Assumptions C09_mixed_outcome_counts_before_fix_refuted.
+
+(* the repair only adds behaviour: wherever the old stacking was defined the new one returns the same vector *)
+Theorem C09_hstack_extends_vstack : forall (F : OF) (blocks : list (list F)) f,
+  vstack_flatten blocks = Some f -> hstack blocks = Some f.
+Proof. exact hstack_extends_vstack. Qed.
+Print Assumptions C09_hstack_extends_vstack.
 
 (* ---- non-vacuity: the hypotheses are satisfiable on a concrete asymmetric instance (5 x 2, blocks of 3 and 2 rows) *)
 Example C09_example_certificate : left_inverse_cert 2 exM (gram 5 exA).
@@ -182,3 +242,12 @@ Example C09_example_solve_finds_inverse : match solve (F:=Qc_OF) 5 2 exA with S_
 Proof. exact ex_solve. Qed.
 Example C09_example_coded_returns : exists xs, calc_estimate_sequence (F:=Qc_OF) 4 2 exA2 exb2 exsq2 = E_ok xs /\ length xs = 2%nat.
 Proof. exact ex_coded_ok. Qed.
+(* the two inputs that refuted the old code, through the repaired model: unequal outcome counts (3 and 2) with exact data
+   return the true variables; the wide 1 x 2 tester set raises at the guard *)
+Example C09_example_mixed_counts_fixed : exists x, calc_estimate (F:=Qc_OF) 5 2 exA exb exds = E_ok [x] /\ length x = 2%nat /\ veq 2 (vofl (F:=Qc_OF) x) exv.
+Proof. exact ex_mixed_fixed. Qed.
+Example C09_example_wide_fixed : calc_estimate (F:=Qc_OF) 1 2 wA [q 0 1] [(1%Z, [q 1 1])] = E_guard.
+Proof. exact ex_wide_fixed. Qed.
+(* the hypothesis of 12e is satisfiable: the 5 x 2 instance passes the repaired guard *)
+Example C09_example_guard_passes : coded_guard (F:=Qc_OF) 5 2 exA = true.
+Proof. exact ex_guard. Qed.
